@@ -500,9 +500,15 @@ def run(facts, cg):
                 finding('R-RUNS', b.q, 'run-length', 'the number of chunks covered by a request is not derived from a count of adjacent chunks')
         # the adjacency predicate: a closure applied to windows(2) of chunk offsets
         par = facts.original.get(b.raw.get('parent') or '')
-        if b.raw['kind'] == 'Closure' and not b.raw.get('coroutine') and par is not None and \
-                any('q' in t['callee'] and callee_q(t).endswith('::windows') for _, t in (facts.bodies.get(par.id) or par).calls()):
+        closure_form = b.raw['kind'] == 'Closure' and not b.raw.get('coroutine') and par is not None and \
+            any('q' in t['callee'] and callee_q(t).endswith('::windows') for _, t in (facts.bodies.get(par.id) or par).calls())
+        # ... or a loop over windows(2) written out in the function itself (`for pair in chunks.windows(2) { if !adjacent(..) { break } n += 1 }`)
+        loop_form = b.raw['kind'] != 'Closure' and any('q' in t['callee'] and callee_q(t).endswith('::windows') for _, t in b.calls())
+        if closure_form or loop_form:
             cmps = [(bi, st) for bi in b.live for st in b.blocks[bi]['stmts'] if st['k'] == 'assign' and st['rv']['k'] == 'binop' and st['rv']['op'] in ('Eq', 'Ne', 'Le', 'Lt', 'Ge', 'Gt')]
+            if loop_form:
+                # only the comparisons of chunk places (not the loop's own counters)
+                cmps = [(bi, st) for bi, st in cmps if has_field(simplify(T.of_operand(b, st['rv']['a'])), 'offset') or has_field(simplify(T.of_operand(b, st['rv']['b'])), 'offset')]
             if not cmps:
                 continue
             n_adj += 1
@@ -516,6 +522,34 @@ def run(facts, cg):
                     # `prev.end() == next.offset`: end() is the public accessor for offset + size
                     if st['rv']['op'] == 'Eq' and has_call(x, 'ChunkOffset::end') and has_field(y, 'offset') and not has_field(y, 'size') and not has_call(y, 'ChunkOffset::end'):
                         good = True
+                    # the loop form may test the negation (`if prev.end() != next.offset { break }`): the unequal side leaves the loop
+                    # (reaches the return without another `next()`), the equal side goes round again
+                    if loop_form and st['rv']['op'] in ('Eq', 'Ne') and (has_call(x, 'ChunkOffset::end') or (has_field(x, 'offset') and has_field(x, 'size'))) and \
+                            has_field(y, 'offset') and not has_field(y, 'size') and not has_call(y, 'ChunkOffset::end'):
+                        from .r_accept import deciding_switch
+                        dsw = deciding_switch(b, bi, st['pl']['l'])
+                        if dsw is not None:
+                            sw_, flipped_ = dsw
+                            t_e, f_e = sw_['otherwise'], dict(zip(sw_['vals'], sw_['targets'])).get(0)
+                            if flipped_:
+                                t_e, f_e = f_e, t_e
+                            eq_edge, ne_edge = (t_e, f_e) if st['rv']['op'] == 'Eq' else (f_e, t_e)
+                            nexts_ = {cbi for cbi, ct_ in b.calls() if 'q' in ct_['callee'] and callee_q(ct_).split('::')[-1] == 'next'}
+                            rets_ = {x_ for x_ in b.live if b.blocks[x_]['term']['k'] == 'return'}
+
+                            def _reaches(start, goals, avoid):
+                                seen_, w_ = set(), [start]
+                                while w_:
+                                    z = w_.pop()
+                                    if z in seen_ or z in avoid or b.blocks[z].get('cleanup'):
+                                        continue
+                                    seen_.add(z)
+                                    if z in goals:
+                                        return True
+                                    w_.extend(succs(b.blocks[z]['term']))
+                                return False
+                            if eq_edge is not None and ne_edge is not None and _reaches(eq_edge, nexts_, rets_) and _reaches(ne_edge, rets_, nexts_) and not _reaches(ne_edge, nexts_, rets_):
+                                good = True
             instances.append({'rule': 'R-RUNS(adjacency)', 'function': b.q, 'comparisons': [show(simplify(T.of_rvalue(b, st['rv'], 0)))[:120] for _, st in cmps]})
             if not good:
                 finding('R-RUNS', b.q, 'adjacency-predicate', 'adjacency is not `prev.offset + prev.size == next.offset`')
